@@ -375,7 +375,7 @@ impl Gen {
         let mut op = self.next_inner(rng, view);
         if self.fault_pct > 0 && rng.below(100) < self.fault_pct {
             use crate::state::Class;
-            op.f = Some(crate::scenario::Fault { c: *rng.pick(&[Class::Pred, Class::Pred, Class::Clone, Class::Hash, Class::Eq, Class::Iter]), k: rng.range(1, 4) as u32 });
+            op.f = Some(crate::scenario::Fault { c: *rng.pick(&[Class::Pred, Class::Pred, Class::Clone, Class::Hash, Class::Eq, Class::Iter, Class::Drop, Class::Drop]), k: rng.range(1, 4) as u32 });
         }
         op
     }
